@@ -118,6 +118,7 @@ type Evaluator struct {
 	nextList  int
 	curCall   *ssa.Call
 	recvOv    Val
+	argOv     map[int]Val // argument values fixed for the call that is bound next (one alternative of a choice of lists)
 	mapLits   map[*ssa.Global]Val
 	mapLitOK  map[*ssa.Global]bool
 	lists     map[int]*ListV
@@ -886,6 +887,11 @@ func (x *Evaluator) boolPhi(v *ssa.Phi, vals []Val, preds []*ssa.BasicBlock, e *
 }
 
 func (x *Evaluator) listPhi(v *ssa.Phi, vals []Val) Val {
+	// lists written out in full that differ in length (a list that is extended on one way
+	// only): each stays what it is, positions included
+	if alts := finiteAlternatives(vals); alts != nil {
+		return ChoiceV{Opts: alts}
+	}
 	// loop-carried list built by append: the initial (finite) list stays a known prefix, followed
 	// by a uniform tail of everything appended
 	var elems, prefix []Val
@@ -916,6 +922,47 @@ func (x *Evaluator) listPhi(v *ssa.Phi, vals []Val) Val {
 		prefix = nil
 	}
 	return ListV{Prefix: prefix, Elem: joinVals(elems), Origin: origin}
+}
+
+// finiteAlternatives: vals are finite lists of which at least two differ in length (nil otherwise).
+func finiteAlternatives(vals []Val) []Val {
+	if len(vals) < 2 {
+		return nil
+	}
+	differ := false
+	var first ListV
+	for i, a := range vals {
+		l, ok := a.(ListV)
+		if !ok || !l.IsFinite {
+			return nil
+		}
+		if i == 0 {
+			first = l
+		} else if len(l.Finite) != len(first.Finite) {
+			differ = true
+		}
+	}
+	if !differ {
+		return nil
+	}
+	return append([]Val{}, vals...)
+}
+
+// listChoice: v is a choice between finite lists.
+func listChoice(v Val) ([]ListV, bool) {
+	ch, ok := v.(ChoiceV)
+	if !ok || len(ch.Opts) == 0 {
+		return nil, false
+	}
+	var out []ListV
+	for _, o := range ch.Opts {
+		l, ok := o.(ListV)
+		if !ok || !l.IsFinite {
+			return nil, false
+		}
+		out = append(out, l)
+	}
+	return out, true
 }
 
 // uniform: every element the list can hold, without positions.
@@ -1395,6 +1442,21 @@ func (x *Evaluator) evalFieldRead(a *ssa.FieldAddr, t types.Type, e *env, c *eva
 
 func (x *Evaluator) evalElemRead(a *ssa.IndexAddr, t types.Type, e *env, c *evalCtx) Val {
 	lst := x.evalC(a.X, e, c)
+	if opts, ok := listChoice(lst); ok {
+		// the index may depend on the length of the list: it is evaluated for each alternative
+		var outs []Val
+		for _, o := range opts {
+			ne := *e
+			ne.memo = map[ssa.Value]Val{}
+			ne.override = map[ssa.Value]Val{}
+			for k, ov := range e.override {
+				ne.override[k] = ov
+			}
+			ne.override[a.X] = o
+			outs = append(outs, x.evalElemRead(a, t, &ne, &evalCtx{busy: map[ssa.Value]bool{}}))
+		}
+		return joinChoice(outs)
+	}
 	l, ok := lst.(ListV)
 	if !ok {
 		if o, ok := lst.(OpaqueV); ok {
